@@ -36,6 +36,7 @@ type RunPlan struct {
 	SignalsFromStep int  // signal messages emitted before the terminal message
 	NonFatalErrors  int  // error messages (neither step- nor server-fatal) emitted before the terminal message
 	StepFatal       bool // terminal message is a step-fatal error instead of work-done
+	ServerFatal     bool // instead of answering, the peer reports a server-fatal error and shuts down (as RunATPServer does)
 }
 
 // SentMsg records one message the peer wrote (in stream order; index 0 is the hello).
@@ -143,6 +144,12 @@ func (p *Peer) Run() {
 						MessageData: atp.SignalMessage{SignalID: "progress", Data: map[string]any{"n": int64(i)}}})
 				}
 				p.Answered[runID]++
+				if plan.ServerFatal {
+					_ = p.send("serverfatal", runID, atp.RuntimeMessage{MessageID: atp.MessageTypeError, RunID: "",
+						MessageData: atp.ErrorMessage{Error: "the plugin is going down", StepFatal: true, ServerFatal: true}})
+					_ = p.In.Close() // stop reading; Run closes the output once all step threads are done
+					return
+				}
 				if plan.StepFatal {
 					_ = p.send("fatal", runID, atp.RuntimeMessage{MessageID: atp.MessageTypeError, RunID: runID,
 						MessageData: atp.ErrorMessage{Error: "step failed: " + runID, StepFatal: true}})
